@@ -146,8 +146,13 @@ def sle(buf, at, n):
     return v
 
 
+BLOCKS = []  # (file, absolute offset, payload size, what) of every CRC block validated
+CURRENT = ["", 0]  # file and offset of the pack being decoded
+
+
 def block(buf, at, size, what):
     """return the payload of the block [at, at+size) after checking the CRC stored right after it"""
+    BLOCKS.append((CURRENT[0], CURRENT[1] + at, size, what))
     if at < 0 or at + size + 4 > len(buf):
         raise Invalid(f"{what}: block [{at},{at+size}+4) outside the pack ({len(buf)})")
     payload = buf[at:at + size]
@@ -232,6 +237,7 @@ def open_file(path):
     with open(path, "rb") as f:
         data = f.read()
     start = 0
+    CURRENT[0], CURRENT[1] = path, 0
     try:
         block(data, 0, 60, "head")
         if data[:3] != b"jbk":
@@ -252,7 +258,9 @@ def open_file(path):
         if start < 0:
             raise Invalid("embedded pack larger than the file")
     buf = data[start:]
+    CURRENT[0], CURRENT[1] = path, start
     p = Pack(buf, os.path.basename(path))
+    p.path, p.base = path, start
     if p.kind != "C":
         return {p.uuid: p}
     head = block(buf, 64, 60, "container header")
@@ -268,7 +276,10 @@ def open_file(path):
         off = le(loc, 24, 8)
         if off + size > len(buf):
             raise Invalid(f"locator {i}: pack outside the container")
+        CURRENT[0], CURRENT[1] = path, start + off
         sub = Pack(buf[off:off + size], f"pack {i} in container")
+        sub.path, sub.base = path, start + off
+        CURRENT[0], CURRENT[1] = path, start
         if sub.uuid != uuid:
             raise Invalid(f"locator {i}: uuid differs from the pack header")
         if sub.size != size:
@@ -281,6 +292,7 @@ def open_file(path):
 
 # ---------------------------------------------------------------- manifest
 def decode_manifest(p):
+    CURRENT[0], CURRENT[1] = p.path, p.base
     buf = p.buf
     head = block(buf, 64, 60, "manifest header")
     count = le(head, 0, 2)
@@ -337,6 +349,7 @@ def decompress(kind, raw, size, codec):
 
 
 def decode_content(p, codec):
+    CURRENT[0], CURRENT[1] = p.path, p.base
     buf = p.buf
     head = block(buf, 64, 60, "content header")
     info_pos = le(head, 0, 8)
@@ -526,6 +539,7 @@ def read_props(entry, at, props, stores):
 
 
 def decode_directory(p):
+    CURRENT[0], CURRENT[1] = p.path, p.base
     buf = p.buf
     head = block(buf, 64, 60, "directory header")
     ipos, epos, vpos = le(head, 0, 8), le(head, 8, 8), le(head, 16, 8)
@@ -612,6 +626,7 @@ def decode_directory(p):
 # ---------------------------------------------------------------- whole container
 def decode(path, codec=None, pack_ids=None):
     NOTES.clear()
+    BLOCKS.clear()
     here = os.path.dirname(os.path.abspath(path))
     packs = open_file(path)
     manifest = [p for p in packs.values() if p.kind == "m"]
@@ -665,6 +680,10 @@ def main():
         codec = args[args.index("--codec") + 1]
     try:
         d = decode(args[0], codec)
+        if "--blocks" in args:
+            # every CRC block of every file of the container: [file, offset, payload size, what]
+            print(json.dumps({"blocks": sorted(set((os.path.basename(f), o, n, w) for f, o, n, w in BLOCKS))}))
+            return
     except Invalid as e:
         print(json.dumps({"open": {"err": f"independent decoder: {e}"}}))
         sys.exit(1)
